@@ -173,9 +173,9 @@ def run(ctx) -> None:
         ok = len(dl) == 1 and shapes.flows_from(d, dl[0].args[0], lambda e: isinstance(e, ast.Call) and unparse(e.func) == "rfd_from_content")
         n_points += 1
         ctx.check("R2", ok, f"{rw}.diff: diff_lines receives the record computed by rfd_from_content", f"{rw}.diff: the diff is not computed from the rewritten record", "", loc=d.loc())
-        rep_d = [c for c in ast.walk(d.node) if isinstance(c, ast.Call) and isinstance(c.func, ast.Attribute) and c.func.attr == "_replace" and "path" in _open_kwargs(c)]
-        rep_i = [c for c in ast.walk(it.node) if isinstance(c, ast.Call) and isinstance(c.func, ast.Attribute) and c.func.attr == "_replace" and "path" in _open_kwargs(c)]
-        ok = len(rep_d) == 1 and len(rep_i) == 1 and _open_kwargs(rep_d[0])["path"] == f"str({unparse(ld.target.elts[0])})" and _open_kwargs(rep_i[0])["path"] == f"str({unparse(li.target.elts[0])})"
+        rep_d = shapes.record_labels(prog, d, rw)
+        rep_i = shapes.record_labels(prog, it, rw)
+        ok = len(rep_d) == 1 and len(rep_i) == 1 and rep_d[0][1] == f"str({unparse(ld.target.elts[0])})" and rep_i[0][1] == f"str({unparse(li.target.elts[0])})"
         n_points += 1
         ctx.check("R2", ok, f"{rw}: both paths label the record with str(file_path)", f"{rw}: diff and write path label records differently", "", loc=d.loc())
         # (4b) every file of the loop contributes its diff: no iteration skips the accumulation
